@@ -336,6 +336,9 @@ class DataInput(DataInputAbstract):
         if prefix:
             self._load_correct_parser(prefix)
         super().__init__(input, fast_parse)
+        # the specialised parser is only needed while parsing; keeping the instance would keep
+        # the token generator of the finished parse alive, which can be neither copied nor pickled
+        self.__dict__.pop("_parser", None)
 
     @property
     def _class_prefix(self):
